@@ -52,11 +52,20 @@ def divideStep (cutoff : Nat) (o : DivideOracle) (childless : List (List Nat)) :
     let k := o.pick childless % childless.length
     let sub := childless.getD k []
     let others := childless.eraseIdx k
-    if sub.length ≤ cutoff then some others                       -- contracted outright
+    if sub.length ≤ 1 then some childless      -- `contract_nodes` of one node returns it untouched
+    else if sub.length ≤ cutoff then some others                  -- contracted outright
     else
       let groups := separate sub (o.part sub)
       if groups.length = 1 then some others                       -- one community: contract all
       else some (others ++ groups.filter fun g => 1 < g.length)   -- the parts become childless
+
+/-- `tree.childless` right after `ContractionTree(..., track_childless=True)` (core.py:270):
+    the root, whatever `N` -/
+def initChildless (N : Nat) : List (List Nat) := [List.range N]
+
+/-- the same with the proposed repair (fixes/C05-childless-single-input.patch): a single input is
+    a leaf and waits for no children -/
+def initChildlessFixed (N : Nat) : List (List Nat) := if N > 1 then [List.range N] else []
 
 /-- the `while` loop with fuel; returns the number of iterations done -/
 def divideLoop (cutoff : Nat) (o : DivideOracle) : Nat → List (List Nat) → Option Nat
